@@ -158,6 +158,13 @@ func msgName(m tea.Msg) string {
 		return "c:" + v.ID
 	case execDoneMsg:
 		return "execdone:" + v.Tag
+	case tea.BatchMsg:
+		if len(v) > 0 {
+			if id, ok := batchIDs.Load(fmt.Sprintf("%p", []tea.Cmd(v))); ok {
+				return fmt.Sprintf("batchof:%d", id)
+			}
+		}
+		return tea.VerifDescribeMsg(m)
 	default:
 		return tea.VerifDescribeMsg(m)
 	}
